@@ -7,8 +7,9 @@ Import ListNotations.
 Open Scope Z_scope.
 
 (* Every history (any length, failing operations included) over
-   {background generation by each method, signal generation, merge, the four stages of
-   initialize_trial on the generated events, evaluate, unblind (copy of exp), drop} started with no trial in flight leaves every
+   {construction of the seasonal scrambling method and of the signal candidates (both read
+   the data sets), background generation by each method, signal generation, merge, the four
+   stages of initialize_trial on the generated events, evaluate, unblind (copy of exp), drop} started with no trial in flight leaves every
    buffer and every table object of the initial store - in particular all of exp / mc -
    exactly as it was, and the data sets still point to the same objects. *)
 Theorem C07_preserved_full : forall w0 ops,
@@ -126,6 +127,13 @@ Theorem C07_uniform_ra_in_range : forall k lo hi g draws t s,
 Proof. exact uniform_ra_in_range. Qed.
 Print Assumptions C07_uniform_ra_in_range.
 
+(* the run masks the seasonal scrambling method computes from the stored time column *)
+Theorem C07_seasonal_masks : forall runs times,
+  seasonal_masks runs times =
+  map (fun r => map (fun t => (fst r <=? t) && (t <? snd r)) times) runs.
+Proof. exact seasonal_masks_spec. Qed.
+Print Assumptions C07_seasonal_masks.
+
 (* the two repaired defects, as witnesses against the code before the fixes *)
 Theorem C07_narrowing_alone_refuted :
   exists x, 0 <= x < bits_2pi /\ bits_2pi <= rne 29 x.
@@ -140,17 +148,17 @@ Theorem C07_init_on_dataset_array_refuted :
 Proof. exact init_on_dataset_array_alters. Qed.
 Print Assumptions C07_init_on_dataset_array_refuted.
 
-(* non-vacuity: a two-dataset world, a 22-step history using every operation, every
+(* non-vacuity: a two-dataset world, a 24-step history using every operation, every
    scrambling method, selection, sort, aliasing data fields, redraw; all steps succeed, and
    the generated arrays really differ from exp *)
 Example C07_nonvacuous :
   Forall (fun o => o = None) (w_cache ex_w0) /\ Forall (fun o => o = None) (w_ev ex_w0) /\
   Forall (fun o => o = None) (w_sig ex_w0) /\ Forall (fun o => o = None) (w_tdm ex_w0) /\
-  snd (run ex_ops ex_w0) = repeat (Ok tt) 22 /\
-  length (sb (w_store ex_w0)) = 28%nat /\ length (st (w_store ex_w0)) = 4%nat /\
+  snd (run ex_ops ex_w0) = repeat (Ok tt) 24 /\
+  length (sb (w_store ex_w0)) = 30%nat /\ length (st (w_store ex_w0)) = 4%nat /\
   w_exp ex_w0 = [0%nat; 1%nat] /\ w_mc ex_w0 = [2%nat; 3%nat] /\
   view (w_store (fst (run ex_ops ex_w0))) 0%nat = view (w_store ex_w0) 0%nat /\
-  col (w_store (fst (run (firstn 1 ex_ops) ex_w0))) 4%nat F_RA <> col (w_store ex_w0) 0%nat F_RA.
+  col (w_store (fst (run (firstn 3 ex_ops) ex_w0))) 7%nat F_RA <> col (w_store ex_w0) 0%nat F_RA.
 Proof. vm_compute. repeat split; repeat constructor; congruence. Qed.
 
 Example C07_range_nonvacuous :
